@@ -19,6 +19,7 @@ import Fir.Model.SimdU16x4
 import Fir.Model.SimdU16x2
 import Fir.Model.SimdU16x3
 import Fir.Model.SimdU16x4A
+import Fir.Model.SimdU16x2A
 namespace Fir
 
 /-- C02 tolerance between two back-ends: integers identical, f32 a few ulps of a re-associated f64 sum -/
@@ -267,6 +268,22 @@ def handleKernel (fs : List (String × String)) : String :=
                   return some s!"lane model of the AVX2 U16x4 horizontal kernels: pixel ({x},{y}) channel {ch}: model={px.getD ch 0} got={got[(y * dw + x) * 4 + ch]!}"
           return none
         else none
+      -- LA16 on AVX2, horizontal pass: four-row blocks by halves (= the SSE4.1 row), leftover rows through the AVX2 one-row kernel
+      let lane162a : Option String :=
+        if p.kind == .u16 ∧ p.n == 2 ∧ ext == "avx2" ∧ pass == "h" ∧ got.size == dw * dh * 2 then Id.run do
+          let q := normalize32 c
+          for y in [0:dh] do
+            let row : List Int := (List.range (sw * 2)).map fun i => src[(offset + y) * sw * 2 + i]!
+            for x in [0:dw] do
+              let (start, ks) := q.chunks.getD x (0, #[])
+              let px := if y < dh - dh % 4 then SimdU16x2.pixel q.precision row start ks.toList
+                        else SimdU16x2A.pixelA q.precision row start ks.toList
+              for ch in [0:2] do
+                if px.getD ch 0 ≠ got[(y * dw + x) * 2 + ch]! then
+                  return some s!"lane model of the AVX2 U16x2 horizontal kernels: pixel ({x},{y}) channel {ch}: model={px.getD ch 0} got={got[(y * dw + x) * 2 + ch]!}"
+          return none
+        else none
+      let lane164a := match lane164a with | some e => some e | none => lane162a
       let lane163 := match lane163 with | some e => some e | none => lane164a
       let lane162 := match lane162 with | some e => some e | none => lane163
       let lane164 := match lane164 with | some e => some e | none => lane162
